@@ -5,9 +5,9 @@ package main
 
 import (
 	"go/ast"
-	"reflect"
 	"go/token"
 	"go/types"
+	"reflect"
 
 	"golang.org/x/tools/go/cfg"
 )
@@ -113,6 +113,39 @@ func contains(n, target ast.Node) bool {
 func (g *Graph) Locate(target ast.Node) (Point, bool) {
 	if target == nil || isNilNode(target) {
 		return Point{g.C.Blocks[0], 0}, false
+	}
+	// compound statements are not CFG nodes themselves: locate their first evaluated part
+	switch t := target.(type) {
+	case *ast.RangeStmt:
+		return g.Locate(t.X)
+	case *ast.ForStmt:
+		if t.Init != nil {
+			return g.Locate(t.Init)
+		}
+		if t.Cond != nil {
+			return g.Locate(t.Cond)
+		}
+		if len(t.Body.List) > 0 {
+			return g.Locate(t.Body.List[0])
+		}
+	case *ast.IfStmt:
+		if t.Init != nil {
+			return g.Locate(t.Init)
+		}
+		return g.Locate(t.Cond)
+	case *ast.BlockStmt:
+		if len(t.List) > 0 {
+			return g.Locate(t.List[0])
+		}
+	case *ast.SwitchStmt:
+		if t.Init != nil {
+			return g.Locate(t.Init)
+		}
+		if t.Tag != nil {
+			return g.Locate(t.Tag)
+		}
+	case *ast.LabeledStmt:
+		return g.Locate(t.Stmt)
 	}
 	var best Point
 	var bestLen token.Pos = -1
